@@ -35,7 +35,7 @@ Definition step_early (s : state) (a : action) : option state :=
 Definition strip_entry (e : entry) : entry :=
   {| e_id := e_id e; e_uid := e_uid e; e_prev := e_prev e; e_kind := e_kind e; e_txid := e_txid e;
      e_postings := e_postings e; e_ref := e_ref e; e_ik := 0%N; e_reverts := e_reverts e; e_owner := e_owner e;
-     e_unb := e_unb e |}.
+     e_unb := e_unb e; e_meta := e_meta e |}.
 Definition strip_meta_ik (t : tid) (s' : state) : state :=
   match get_thread (threads s') t with
   | Some th =>
@@ -63,7 +63,7 @@ Fixpoint run_with (stp : state -> action -> option state) (s : state) (acts : li
 
 Definition e2_req (k : kind) (ik ref : N) (ps : list posting) (rv : nat) : request :=
   {| rq_kind := k; rq_ik := ik; rq_ref := ref; rq_dry := false; rq_postings := ps; rq_unb := false; rq_revert := rv;
-     rq_target_tx := None |}.
+     rq_target_tx := None; rq_meta := 0%N |}.
 Definition e2_rs (t : tid) (n : nat) : list action := repeat (AResume t) n.
 
 (* ---- C11 before the repair ---------------------------------------------------------------------------------- *)
@@ -111,28 +111,66 @@ Lemma e2_c07_fixed_replay :
     length (persisted s) = 1 /\ get_thread (threads s) 2 = Some th2 /\ t_resp th2 = Some (ROk None).
 Proof. vm_compute. eexists. eexists. repeat split. Qed.
 
-(* ---- C07 same outcome: a key stored by another kind of write (known finding, on the model as it is) ---------------- *)
-(* a transaction is committed with key 5; a SaveMeta request carrying key 5 finds the entry, does not look at it,
-   writes nothing and reports success: [ROk None] although the entry under the key has transaction id 0 *)
+(* ---- C07 same outcome: a key stored by another kind of write is refused (the former known finding) ------------------ *)
+(* a transaction is committed with key 5; a SaveMeta request carrying key 5 finds the entry, which is not the outcome
+   of a SaveMeta: it is refused ([RErr EKeyReused]), writes nothing, publishes nothing, and gives the key back;
+   a retry of the SAME create under key 5 (request 3) replays the stored transaction id.
+   Before the repair of executionContext.run the SaveMeta answered [ROk None] and published. *)
 Definition e2_pay_k5 : request := e2_req KCreate 5 0 [(world, 1%N, 10%Z)] 0.
 Definition e2_c07_mixed : list action :=
   AStart 1 e2_pay_k5 :: e2_rs 1 10 ++ [APersistOk] ++ e2_rs 1 3 ++ AStart 2 e2_meta5 :: e2_rs 2 2.
+Definition e2_c07_mixed_retry : list action := e2_c07_mixed ++ AStart 3 e2_pay_k5 :: e2_rs 3 2.
 
-Lemma e2_c07_mixed_witness :
-  exists s e th, run init e2_c07_mixed = Some s /\ persisted s = [e] /\ get_thread (threads s) 2 = Some th /\
-    t_resp th = Some (ROk None) /\ rq_dry (t_req th) = false /\ rq_ik (t_req th) = 5%N /\
-    e_ik e = 5%N /\ e_txid e = Some 0 /\ e_kind e = KCreate /\ rq_kind (t_req th) = KSaveMeta.
-Proof. vm_compute. eexists. eexists. eexists. repeat split. Qed.
+Lemma e2_c07_key_reuse_refused :
+  exists s e th1 th2 th3, run init e2_c07_mixed_retry = Some s /\
+    persisted s = [e] /\ v_pending s = [] /\ v_batch s = None /\ v_iks s = [] /\
+    e_ik e = 5%N /\ e_txid e = Some 0 /\ e_kind e = KCreate /\ e_owner e = 1 /\
+    get_thread (threads s) 1 = Some th1 /\ get_thread (threads s) 2 = Some th2 /\ get_thread (threads s) 3 = Some th3 /\
+    rq_ik (t_req th1) = 5%N /\ rq_ik (t_req th2) = 5%N /\ rq_ik (t_req th3) = 5%N /\
+    rq_kind (t_req th2) = KSaveMeta /\ rq_dry (t_req th2) = false /\
+    t_resp th1 = Some (ROk (Some 0)) /\
+    t_resp th2 = Some (RErr EKeyReused) /\ t_entry th2 = None /\ t_pc th2 = PFinished /\
+    t_resp th3 = Some (ROk (Some 0)) /\ t_entry th3 = None /\
+    map ev_tid (published s) = [1; 3].
+Proof. vm_compute. do 5 eexists. repeat split. Qed.
 
-Lemma e2_ik_same_outcome_refuted : exists s, reachable s /\ ~ ik_same_outcome s.
-Proof.
-  destruct e2_c07_mixed_witness as [s [e [th (Hrun&Hp&Hth&Hresp&Hdry&Hik&Eik&Etx&_)]]].
-  exists s. split; [exists e2_c07_mixed; exact Hrun|]. intros H.
-  assert (Hin : In e (persisted s)) by (rewrite Hp; left; reflexivity).
-  assert (Hk : rq_ik (t_req th) <> 0%N) by (rewrite Hik; discriminate).
-  assert (Heq : e_ik e = rq_ik (t_req th)) by congruence.
-  pose proof (H 2 th None e Hth Hresp Hdry Hk Hin Heq) as C. rewrite Etx in C. discriminate.
-Qed.
+(* the state right after the refusal: same disk, nothing in flight, key free, one event (of request 1) *)
+Lemma e2_c07_key_reuse_refused_at :
+  exists s0 s e th2, run init (AStart 1 e2_pay_k5 :: e2_rs 1 10 ++ [APersistOk] ++ e2_rs 1 3) = Some s0 /\
+    run init e2_c07_mixed = Some s /\ persisted s0 = [e] /\ persisted s = [e] /\
+    v_pending s = [] /\ v_batch s = None /\ v_iks s = [] /\ published s = published s0 /\
+    get_thread (threads s) 2 = Some th2 /\ t_resp th2 = Some (RErr EKeyReused).
+Proof. vm_compute. do 4 eexists. repeat split. Qed.
+
+(* ---- C10: a key that stored the revert of one transaction, reused for the revert of another ---------------------- *)
+(* transactions 0 (world -> 1, 200), 1 (1 -> 2, 100), 2 (1 -> 3, 50) on disk; request 3 reverts transaction 1 under
+   key 5 (entry 3); request 4 reverts transaction 2 under key 5: the entry under the key is the revert of
+   transaction 1, not the outcome of this request: refused, transaction 2 is not reverted, one revert entry.
+   Request 5 retries the SAME revert (transaction 1, key 5): the revert check precedes the key lookup in
+   RevertTransaction, so it is answered [EAlreadyReverted] (no second effect; a revert never reaches the replay) *)
+Definition e2_revk (ik : N) (id : nat) : request := e2_req KRevert ik 0 [] id.
+Definition e2_c10_setup : list action :=
+  AStart 0 (e2_req KCreate 0 0 [(world, 1%N, 200%Z)] 0) :: e2_rs 0 8 ++ [APersistOk] ++ e2_rs 0 3 ++
+  AStart 1 (e2_req KCreate 0 0 [(1%N, 2%N, 100%Z)] 0) :: e2_rs 1 8 ++ [APersistOk] ++ e2_rs 1 3 ++
+  AStart 2 (e2_req KCreate 0 0 [(1%N, 3%N, 50%Z)] 0) :: e2_rs 2 8 ++ [APersistOk] ++ e2_rs 2 3.
+Definition e2_c10_reuse : list action :=
+  e2_c10_setup ++ AStart 3 (e2_revk 5 1) :: e2_rs 3 12 ++ [APersistOk] ++ e2_rs 3 3 ++
+  AStart 4 (e2_revk 5 2) :: e2_rs 4 4 ++ AStart 5 (e2_revk 5 1) :: e2_rs 5 2.
+
+Lemma e2_c10_key_reuse_other_revert :
+  exists s th3 th4 th5, run init e2_c10_reuse = Some s /\
+    map (fun e => (e_owner e, e_ik e, e_txid e, e_reverts e)) (persisted s) =
+      [(0, 0%N, Some 0, None); (1, 0%N, Some 1, None); (2, 0%N, Some 2, None); (3, 5%N, Some 3, Some 1)] /\
+    v_pending s = [] /\ v_batch s = None /\ v_iks s = [] /\ v_revs s = [] /\
+    is_reverted (persisted s) 1 = true /\ is_reverted (persisted s) 2 = false /\
+    count_where (fun e => match e_reverts e with Some _ => true | None => false end) (persisted s) = 1 /\
+    get_thread (threads s) 3 = Some th3 /\ get_thread (threads s) 4 = Some th4 /\ get_thread (threads s) 5 = Some th5 /\
+    t_req th4 = e2_revk 5 2 /\ t_req th5 = t_req th3 /\
+    t_resp th3 = Some (ROk (Some 3)) /\
+    t_resp th4 = Some (RErr EKeyReused) /\ t_entry th4 = None /\
+    t_resp th5 = Some (RErr EAlreadyReverted) /\ t_entry th5 = None /\
+    map ev_tid (published s) = [0; 1; 2; 3].
+Proof. vm_compute. do 4 eexists. repeat split. Qed.
 
 (* ---- cancellation of a queued request (ACancel / AResumeCancelled), non-vacuity --------------------------------------- *)
 Definition e2_full (t : tid) (rq : request) : list action := AStart t rq :: e2_rs t 8 ++ [APersistOk] ++ e2_rs t 3.
